@@ -8,7 +8,7 @@ TRUSTED_BASE = [
     "hand transcription of Go stdlib behaviour used by the model (UTF-8 decoding, strings.*, strconv.*, reflect as listed in DESIGN.md §5)",
 ]
 
-WALK_ASSUME = ['reflect (Kind, IsZero, Len, Index, MapRange, pointer stripping, Type().String()/Name()) transcribed on the GoVal tree; values are trees (no cycles)', 'Go map iteration order is unobservable: the driver accepts any order of map entries and of group clauses', 'residual stdlib calls (regexp on user patterns, net.ParseIP, json.Valid, os.Stat, time.Parse, error texts of Atoi/QueryUnescape) are answered by the harness from the stdlib', 'calls whose clause text needs fmt %v of a composite value or reflect.DeepEqual on composites are reported as out of scope (unmodelled), never judged']
+WALK_ASSUME = ['reflect (Kind, IsZero, Len, Index, MapRange, pointer stripping, Type().String()/Name()) transcribed on the GoVal tree; values are trees (no cycles)', 'Go map iteration order is unobservable: the driver accepts any order of map entries and of group clauses', 'residual stdlib calls (regexp on user patterns, net.ParseIP, json.Valid, os.Stat, time.Parse, error texts of Atoi/QueryUnescape) are answered by the harness from the stdlib', 'fmt %v of composite values and reflect.DeepEqual on composites are residuals answered by the harness from the stdlib, keyed by a fingerprint of the value; when the wire format cannot name the value uniquely (pointer identity) the case is out of scope (unmodelled), never judged']
 
 CHECKS = {
 
@@ -183,7 +183,7 @@ MANIFEST_TEXT = {
     },
     "C12": {
         "technique": "Lean 4 theorems (pool-adversarial frame theorem, pool invariant by induction over histories) + differential correspondence over sequential histories with re-reading of earlier results",
-        "text": "Theorems: C12_pool_adversarial (a clean recycled validator and an empty recycled builder give the result of fresh ones), C12_returns_clean (every call puts clean objects back), C12_history_independent (for every history and every adversarial pool schedule each call returns its fresh-process result), with C08 for the type cache. Tie: stream history (sequential Struct/Var/Map/Url calls over shared types, tags, overrides, per-call functions; every result vs the model's fresh-state result; error strings and ValidNamesSplit tokens retained and re-read after all later calls).",
+        "text": "Theorems: C12_pool_adversarial (a clean recycled validator and an empty recycled builder give the result of fresh ones), C12_returns_clean (every call puts clean objects back), C12_history_independent (for every history and every adversarial pool schedule each call returns its fresh-process result), with C08 for the type cache; C12_no_aliasing (T2_alias, re-extracted every run): every zero-copy []byte→string conversion of package valid is applied to a buffer made in the same function, after its last write and outside loops, so a string already handed out is never rewritten. Tie: stream history (sequential Struct/Var/Map/Url calls over shared types, tags, overrides, per-call functions; every result vs the model's fresh-state result; error strings and ValidNamesSplit tokens retained and re-read after all later calls).",
         "note": "Trusted: Lean kernel; the pool protocol (NewVStruct re-initialises tag, builder and function table but not the rule map; free clears it) is transcribed from the code; input immutability is by construction of the model (it has no write) and observed by the harness.",
     },
     "C10": {
